@@ -119,6 +119,10 @@ META = {
         "detect_vertical, and at None without); (b) every sequence of at most 3 glyphs from a pool of 3 ordinary and 5 gigantic glyphs "
         "(2e9 square around the page, 1e12 wide, 1e9 tall, 1e300 square, gigantic off-page) x boxes_flow {0.5,None} x detect_vertical; "
         "layout and oracle as for the main family, plus a counted budget of 2*10^6 Plane grid steps on the 100x100 page; "
+        "plus the family device-interleave (both tiers): two PDFPageAggregator objects driven through the device API (begin_page, "
+        "1-2 nested begin_figure, a glyph, end_figure, a page glyph, end_page), every interleaving of the two call sequences for "
+        "nesting depths {1,2}^2, and a fresh device used after the other was abandoned after k calls; laparams None / all_texts; "
+        "each device's page must hold exactly its own figures and glyphs; "
         "plus the family device-forms (both tiers): generated PDFs interpreted through PDFPageAggregator (laparams None / "
         "all_texts False / True) whose page shows two glyphs, a Form XObject (two glyphs, a rectangle, optionally a nested form "
         "with a glyph and a rectangle) and an image XObject, for 5 form /BBox values (3 of them degenerate) x 4 form /Matrix x 4 "
@@ -938,6 +942,116 @@ def analyse_device(case):
     return problems, ("device", len(got))
 
 
+# ---- family "device-interleave": two PDFPageAggregator objects driven side by side through the device API
+# (begin_page / begin_figure / glyph / end_figure / end_page), every interleaving of their call sequences, and a fresh
+# device used after another one was abandoned inside a figure.  Each device's page must hold exactly its own items.
+class _StubPage:
+    mediabox = (0, 0, 100, 100)
+    rotate = 0
+
+
+def _device_script(tag, depth):
+    """call sequence of one device: figures nested `depth` deep with a glyph inside, one glyph on the page"""
+    seq = [("begin_page",)]
+    for k in range(depth):
+        seq.append(("begin_figure", f"{tag}F{k + 1}"))
+    seq.append(("glyph", tag.upper()))
+    for k in range(depth):
+        seq.append(("end_figure",))
+    seq.append(("glyph", tag.lower()))
+    seq.append(("end_page",))
+    return seq
+
+
+def _device_expected(tag, depth):
+    path = ()
+    exp = []
+    for k in range(depth):
+        exp.append(("figure", f"{tag}F{k + 1}", path))
+        path = path + (f"{tag}F{k + 1}",)
+    exp.append(("glyph", tag.upper(), path))
+    exp.append(("glyph", tag.lower(), ()))
+    return sorted(exp)
+
+
+def _tree_items(page):
+    from pdfminer.layout import LTContainer
+
+    got = []
+    todo = [(page, ())]
+    while todo:
+        o, path = todo.pop()
+        if isinstance(o, LTChar):
+            got.append(("glyph", o.get_text(), path))
+        elif isinstance(o, LTFigure):
+            got.append(("figure", o.name, path))
+            todo.extend((c, path + (o.name,)) for c in o)
+        elif isinstance(o, LTContainer):
+            todo.extend((c, path) for c in o)
+    return sorted(got)
+
+
+def analyse_interleave(case):
+    """case: depths (da, db), schedule = string over 'A','B' (who makes the next call; a device may be abandoned early), laparams"""
+    from pdfminer.converter import PDFPageAggregator
+    from pdfminer.pdfinterp import PDFResourceManager
+
+    lap = case["laparams"]
+    laparams = None if lap is None else LAParams(all_texts=bool(lap[0]))
+    scripts = {"A": _device_script("a", case["depths"][0]), "B": _device_script("b", case["depths"][1])}
+    devs = {}
+    pos = {"A": 0, "B": 0}
+    page = _StubPage()
+    problems = []
+    try:
+        for who in case["schedule"]:
+            if who not in devs:
+                devs[who] = PDFPageAggregator(PDFResourceManager(), laparams=laparams)
+                devs[who].set_ctm((1, 0, 0, 1, 0, 0))
+            d = devs[who]
+            step = scripts[who][pos[who]]
+            pos[who] += 1
+            if step[0] == "begin_page":
+                d.begin_page(page, (1, 0, 0, 1, 0, 0))
+            elif step[0] == "begin_figure":
+                d.begin_figure(step[1], (10, 10, 50, 50), (1, 0, 0, 1, 0, 0))
+            elif step[0] == "end_figure":
+                d.end_figure("")
+            elif step[0] == "glyph":
+                d.cur_item.add(make_char((step[1], 20 if who == "A" else 60, 20, 8, 8, "h")))
+            else:
+                d.end_page(page)
+    except Exception as e:  # noqa
+        return [(exc_signature(e).replace("C08/exception", "C08/device-route:exception"), "device calls succeed", f"{type(e).__name__}: {str(e)[:80]}")], ("exc", type(e).__name__)
+    for who, tag, depth in (("A", "a", case["depths"][0]), ("B", "b", case["depths"][1])):
+        if pos[who] < len(scripts[who]):
+            continue  # abandoned device: nothing to judge
+        got = _tree_items(devs[who].get_result())
+        want = _device_expected(tag, depth)
+        if got != want:
+            foreign = [g for g in got if g not in want]
+            missing = [w for w in want if w not in got]
+            kind = "foreign-item-from-another-device" if any((g[1][:1].lower() != tag) for g in foreign) else ("lost-item" if missing else "misplaced-item")
+            problems.append((f"C08/device-route:{kind}", want, got))
+            break
+    return problems, ("interleave", len(case["schedule"]))
+
+
+def interleave_cases():
+    for da in (1, 2):
+        for db in (1, 2):
+            la, lb = len(_device_script("a", da)), len(_device_script("b", db))
+            for posa in itertools.combinations(range(la + lb), la):
+                sa = set(posa)
+                sched = "".join("A" if i in sa else "B" for i in range(la + lb))
+                for lap in (None, (True,)):
+                    yield {"family": "device-interleave", "depths": (da, db), "schedule": sched, "laparams": lap}
+            # device A abandoned after k calls (inside a figure or not), then a fresh device B does a complete page
+            for k in range(1, la):
+                for lap in (None, (True,)):
+                    yield {"family": "device-interleave", "depths": (da, db), "schedule": "A" * k + "B" * lb, "laparams": lap}
+
+
 def shards(tier):
     out = [("short",)]
     out += [("pre", i, j) for i in range(len(POOL)) for j in range(len(POOL))]
@@ -955,6 +1069,7 @@ def shards(tier):
     out += [("huge", i) for i in range(len(HUGE_PAGES))]
     out += [("extreme", "params", i) for i in range(len(POOL))] + [("extreme", "giants", i) for i in range(len(GIANT_POOL))]
     out += [("device-forms", i) for i in range(len(DF_BBOX))]
+    out += [("device-interleave",)]
     return out
 
 
@@ -990,6 +1105,23 @@ def run_shard(shard, tier, st):
                 st.violation(sig, case, exp, obs, sig.split("/", 1)[1])
         if shard[2:] == ("stack", 50, 0.5):
             st.sample({k: (v if k not in ("glyphs", "pdf") else f"<{len(v)} items>") for k, v in case.items()})
+        return
+    if shard[0] == "device-interleave":
+        for k, case in enumerate(interleave_cases()):
+            problems, outcome = analyse_interleave(case)
+            st.states += 1
+            st.transitions += len(case["schedule"])
+            if outcome[0] != "exc":
+                st.traces += 1
+            st.case(None, nontrivial=("A" in case["schedule"] and "B" in case["schedule"]), outcome=(case["depths"], case["schedule"][:6], case["laparams"]) + tuple(outcome))
+            st.add("device_interleave_cases", 1)
+            seen = set()
+            for sig, exp, obs in problems:
+                if sig not in seen:
+                    seen.add(sig)
+                    st.violation(sig, case, exp, obs, sig.split("/", 1)[1])
+            if k == 5:
+                st.sample(case)
         return
     if shard[0] == "extreme":
         i = shard[2]
@@ -1071,8 +1203,11 @@ def run_shard(shard, tier, st):
 
 
 def replay(case):
-    if case.get("family") in ("deep-chain", "huge", "device-forms"):
-        if case["family"] == "deep-chain":
+    if case.get("family") in ("deep-chain", "huge", "device-forms", "device-interleave"):
+        if case["family"] == "device-interleave":
+            case = dict(case, depths=tuple(case["depths"]), laparams=(None if case["laparams"] is None else tuple(case["laparams"])))
+            problems, _ = analyse_interleave(case)
+        elif case["family"] == "deep-chain":
             problems, _ = judge_chain(case)
         elif case["family"] == "huge":
             problems, _ = analyse_custom(case, False)
